@@ -28,7 +28,11 @@ def para_text(lines):
                 out.append(ln[:m.start()] + '<br />')
             else:
                 out.append(ln.rstrip(' '))
-    return html.escape('\n'.join(out).replace('<br />', '\x00'), quote=True).replace('\x00', '<br />')
+    esc = html.escape('\n'.join(out).replace('<br />', '\x00'), quote=True).replace('\x00', '<br />')
+    # inline raw HTML (complete simple tags and complete comments) passes through unescaped
+    esc = re.sub(r'&lt;(/?[a-zA-Z][a-zA-Z0-9]*)&gt;', r'<\1>', esc)
+    esc = re.sub(r'&lt;!--(.*?)--&gt;', r'<!--\1-->', esc, flags=re.S)
+    return esc
 
 def from_model(node, tight=False):
     t = node['t']
@@ -58,6 +62,8 @@ def from_model(node, tight=False):
             body = lines[1:]
             return [('code', info.split()[0] if info.split() else '', ''.join(l + '\n' for l in body))]
         return [('code', '', ''.join(l + '\n' for l in lines))]
+    if t == 'html':
+        return [('t', '\n'.join(_s(l) for l in node['txt']).strip('\n'))]
     raise ValueError(t)
 
 def from_mdit(src):
@@ -95,7 +101,7 @@ def from_mdit(src):
         elif ty == 'hr':
             stack[-1].append(('hr',))
         elif ty == 'html_block':
-            stack[-1].append(('html', tk.content))
+            stack[-1].append(('t', tk.content.strip('\n')))
         else:
             raise ValueError(ty)
     assert len(stack) == 1
@@ -144,6 +150,9 @@ class _HP(HTMLParser):
             else: self.stack[-1].append(('li', kids))
         else: self.buf.append('</%s>' % tag)
     def handle_data(self, data): self.buf.append(data)
+    def handle_comment(self, data): self.buf.append('<!--%s-->' % data)
+    def handle_decl(self, decl): self.buf.append('<!%s>' % decl)
+    def handle_pi(self, data): self.buf.append('<?%s>' % data)
     def handle_entityref(self, name): self.buf.append('&%s;' % name)
     def handle_charref(self, name): self.buf.append('&#%s;' % name)
     def flush_text(self):
